@@ -397,8 +397,32 @@ func readTree(r io.Reader, location string, expansionDepth int) (nodes []Node, s
 	return root.Children, ctx.snippets, ctx.macros, nil
 }
 
+// maxNesting is the deepest level of block nesting in the passed tree.
+func maxNesting(nodes []Node) int {
+	res := 0
+	for _, node := range nodes {
+		if node.Children == nil {
+			continue
+		}
+		if depth := 1 + maxNesting(node.Children); depth > res {
+			res = depth
+		}
+	}
+	return res
+}
+
 func Read(r io.Reader, location string) (nodes []Node, err error) {
 	nodes, _, _, err = readTree(r, location, 0)
+	if err != nil {
+		return nodes, err
+	}
+
+	// readNodes enforces the nesting limit for each file and snippet on its
+	// own, imports can put several of them inside each other.
+	if maxNesting(nodes) > 256 {
+		return nodes, fmt.Errorf("%s: nesting limit reached after import expansion", location)
+	}
+
 	nodes = expandEnvironment(nodes)
 	return
 }
